@@ -12,6 +12,7 @@ from copy import deepcopy
 from typing import Any
 
 from exabgp.bgp.message.update.nlri import NLRI
+from exabgp.bgp.message.update.collection import validate_announce_nlri
 from exabgp.bgp.neighbor import Neighbor
 from exabgp.bgp.neighbor.capability import GracefulRestartConfig
 from exabgp.configuration.core import Error, Parser, Scope, Section
@@ -621,6 +622,10 @@ class ParseNeighbor(Section):
                         *route.nlri.family().afi_safi()
                     ),
                 )
+            # refuse now what could not be encoded: the session would be torn down every time it is sent
+            incomplete = validate_announce_nlri(route.nlri, route.nexthop)
+            if incomplete:
+                return self.error.set(incomplete)
 
         # create one neighbor object per family for multisession
         # NOTE: deepcopy per family is memory-intensive but required for multi-session
